@@ -39,13 +39,17 @@ Definition u16_arith (m : mode) (v : Z) : outcome Z :=
   if (0 <=? v) && (v <? 65536) then Ok v
   else match m with Debug => Panic | Release => Ok (v mod 65536) end.
 
+(* checked_mul(..).ok_or(WriteError::BadValue) *)
+Definition u16_checked (v : Z) : outcome Z :=
+  if (0 <=? v) && (v <? 65536) then Ok v else Err BadValue.
+
 (* write_offset_table *)
 Definition offset_table_header (m : mode) (ver num : Z) : outcome (list Z) :=
   if 65535 <? num then Err OtherErr            (* u16::try_from(len)? *)
   else
     let n := max_power_of_2 num in
-    sr <- u16_arith m (2 ^ n * 16) ;;          (* (1 << n) * 16 in u16 *)
-    n16 <- u16_arith m (num * 16) ;;
+    sr <- u16_checked (2 ^ n * 16) ;;          (* (1u16 << n).checked_mul(16).ok_or(BadValue)? *)
+    n16 <- u16_checked (num * 16) ;;            (* num_tables.checked_mul(16).ok_or(BadValue)? *)
     rs <- u16_arith m (n16 - sr) ;;
     Ok (be_bytes 4 ver ++ be_bytes 2 num ++ be_bytes 2 sr ++ be_bytes 2 n ++ be_bytes 2 rs).
 
